@@ -149,6 +149,42 @@ func genGWMix(g *Gen, weird float64, tag string) *Plan {
 	return p
 }
 
+// genC24Concurrent: two goroutines of one session write to the broker while it does not read — the
+// receive loop forwarding the client's PUBLISHes and the retry timer of a QoS 2 exchange resending its
+// PUBREC (the broker never sends the PUBREL). The window takes a few more bytes, so one of the writes
+// stops half-way; what the broker reads afterwards must still be a sequence of MQTT packets.
+func genC24Concurrent(g *Gen) *Plan {
+	cfg := g.BaseCfg()
+	cfg.Sched = g.Sched("gateway/handler1.go", "util/conn_with_context.go")
+	cfg.RetryDelayMs = g.Range(150, 600)
+	cfg.RetryCount = uint(g.Range(3, 6))
+	p := &Plan{Family: "C24-backpressure-concurrent", Cfg: cfg}
+	sg := &sessGen{g: g, cid: "c1"}
+	sg.gap(5, 200)
+	sg.add(connectPkt("c1", 60, false, true))
+	sg.gap(300, 800)
+	sg.add(refsn.Pkt{Type: refsn.REGISTER, MsgID: sg.nextMid(), TopicName: "t/a"})
+	sg.gap(100, 400)
+	t1 := sg.t
+	nq := int(g.Range(1, 3))
+	for k := 0; k < nq; k++ {
+		p.Broker.Injects = append(p.Broker.Injects, BrokerInject{AtMs: t1 + int64(k)*g.Range(5, 60), Session: "p1", Force: true, Topic: "ab", Payload: serialPayload("q2:", k, 3), QoS: 2})
+	}
+	p.Broker.SilentTypes = []string{"PUBREC"}
+	stall := t1 + g.Range(30, cfg.RetryDelayMs)
+	p.Broker.Faults = append(p.Broker.Faults, BrokerFault{AtMs: stall, Session: "p1", Kind: "backpressure", Cap: int(g.Range(0, 12)), DurMs: cfg.RetryDelayMs + g.Range(50, 2*cfg.RetryDelayMs)})
+	// the client's own traffic during the stall
+	sg.t = stall
+	for k := 0; k < int(g.Range(1, 4)); k++ {
+		sg.gap(10, cfg.RetryDelayMs)
+		sg.add(refsn.Pkt{Type: refsn.PUBLISH, TIT: refsn.TITNormal, TopicID: 1, QoS: uint8(g.Intn(2)), MsgID: sg.nextMid(), Data: serialPayload("c", k, int(g.Range(0, 60)))})
+	}
+	sg.gap(3*cfg.RetryDelayMs, 4*cfg.RetryDelayMs)
+	p.Peers = []PeerPlan{{Name: "p1", Ops: sg.ops, Policy: PeerPolicy{NoWait: true}}}
+	p.Cfg.HorizonMs = sg.t + cfg.RetryDelayMs*int64(cfg.RetryCount+2) + 2000
+	return p
+}
+
 func init() {
 	Register(&Check{ID: "C23", Level: "exploration",
 		Rule: "random raw-peer sessions (all packet kinds, sleep/wake shortcuts, zero keep-alive, oversize broker payloads) and real-client sessions; every datagram written by gateway or client is re-parsed by refsn; non-trivial = run with >= 3 datagrams judged; distinct = distinct canonical history",
@@ -171,6 +207,9 @@ func init() {
 					p.Cfg.GwUser = &u
 				}
 				return p
+			}
+			if idx%10 == 9 {
+				return genC24Concurrent(g)
 			}
 			p := genGWMix(g, 0.35, "C24-gwmix")
 			if idx%5 == 4 {
